@@ -122,7 +122,8 @@ def _resolve(name, hosts):
     except ValueError:
         pass
     if name in hosts:
-        return str(ipaddress.ip_address(hosts[name]))
+        v = hosts[name]
+        return str(ipaddress.ip_address(v[0] if isinstance(v, list) else v))     # several addresses: the first one
     raise Reject('unresolvable')
 
 
